@@ -26,7 +26,7 @@ from vf import core
 
 PROPERTY = 'C16'
 
-ANSWERS = ['now', 'late', 'late-split', 'garbage-after', 'silent', 'close-before', 'close-after']
+ANSWERS = ['now', 'late', 'late-split', 'garbage-after', 'silent', 'close-before', 'close-after', 'late-short']
 TIMEOUT = 2.0
 POLLINTERVAL = 10.0
 
@@ -83,6 +83,8 @@ class Device:
             deliver(rep)
         elif answer == 'late':
             deliver(rep, delay=TIMEOUT + 0.7)
+        elif answer == 'late-short':
+            deliver(rep, delay=TIMEOUT + 0.2)       # just after the time-out: inside a wait_before pause of the next command
         elif answer == 'late-split':
             deliver(rep[:2], delay=0.5)
             deliver(rep[2:], delay=TIMEOUT + 0.7)
@@ -112,15 +114,20 @@ class World:
         self.no_reply_for_m2 = False
 
 
-def make_node(kind):
+def make_node(kind, wait_before=0, eol=None):
     from vf import nodes
     from frappy.io import StringIO, BytesIO
     cls = StringIO if kind == 'string' else BytesIO
-    node = nodes.Node({'io': {'cls': cls, 'uri': 'tcp://dev:5000', 'timeout': {'value': TIMEOUT}, 'pollinterval': {'value': POLLINTERVAL}}})
+    cfg = {'cls': cls, 'uri': 'tcp://dev:5000', 'timeout': {'value': TIMEOUT}, 'pollinterval': {'value': POLLINTERVAL}}
+    if wait_before:
+        cfg['wait_before'] = {'value': wait_before}
+    if eol is not None:
+        cfg['end_of_line'] = eol
+    node = nodes.Node({'io': cfg})
     return node, node.secnode.modules['io']
 
 
-def do_op(io, kind, op, sched):
+def do_op(io, kind, op, sched, eol='\n'):
     """one caller operation; returns (what, own command(s), result | exception name)"""
     name, arg = op
     if name == 'sleep':
@@ -130,8 +137,8 @@ def do_op(io, kind, op, sched):
     t0 = sched.now
     try:
         if name == 'comm':
-            res = io.communicate(arg) if kind == 'string' else io.communicate(arg.encode() + b'\n', len(arg) + 3)
-            res = res if kind == 'string' else res.decode().rstrip('\n')
+            res = io.communicate(arg) if kind == 'string' else io.communicate(arg.encode() + eol.encode(), len(arg) + 2 + len(eol))
+            res = res if kind == 'string' else res.decode()[:-len(eol)]
         elif name == 'write':
             io.writeline(arg)
             res = None
@@ -163,7 +170,7 @@ def execute(case, prefix):
     out = {'results': [[] for _ in case['threads']], 'callbacks': 0}
 
     def body():
-        node, io = make_node(case['kind'])
+        node, io = make_node(case['kind'], case.get('wait_before', 0))
         out['node'], out['io'] = node, io
 
         def cb():
@@ -314,6 +321,10 @@ def cases(tier):
         res.append({'name': f'{name}/string', 'kind': 'string', 'threads': threads,
                     'bound': 0 if seq else 2, 'dev': 3 if seq else 2,
                     'total': None if seq else (3 if quick else 4), 'nanswers': len(ANSWERS)})
+    res.append({'name': 'wait-before/string', 'kind': 'string', 'wait_before': 0.5,
+                'threads': [[['comm', 'A1'], ['comm', 'A2'], ['comm', 'A3']]], 'bound': 0, 'dev': 2, 'total': None, 'nanswers': len(ANSWERS)})
+    res.append({'name': 'wait-before-two/string', 'kind': 'string', 'wait_before': 0.5,
+                'threads': [[['comm', 'A1'], ['comm', 'A2']], [['comm', 'B1']]], 'bound': 1, 'dev': 1, 'total': 2, 'nanswers': len(ANSWERS)})
     for name in (['two-comm', 'multi-vs-comm'] if quick else ['two-comm', 'multi-vs-comm', 'faults-seq', 'faults-two']):
         seq = name == 'faults-seq'
         res.append({'name': f'{name}/bytes', 'kind': 'bytes', 'threads': CASES[name],
@@ -368,12 +379,13 @@ def sub_fn(shard):
 
 def chunk_fn(shard):
     from vf.engines import schedx, fakesock
-    kind, cmd, lo, hi = shard
+    kind, cmd, lo, hi = shard[:4]
+    eol = shard[4] if len(shard) > 4 else '\n'
     import frappy.io  # noqa: F401
     from vf import nodes  # noqa: F401
     fakesock.install()
     part = core.Part()
-    reply = b'R:' + cmd.encode() + b'\n'
+    reply = b'R:' + cmd.encode() + eol.encode()
     n = len(reply)
     for mask in range(lo, hi):
         cuts = [i + 1 for i in range(n - 1) if mask >> i & 1]
@@ -391,18 +403,18 @@ def chunk_fn(shard):
 
             def on_data(self, sock, data):
                 self.buf += data
-                while b'\n' in self.buf:
-                    _c, self.buf = self.buf.split(b'\n', 1)
+                while eol.encode() in self.buf:
+                    _c, self.buf = self.buf.split(eol.encode(), 1)
                     for k, piece in enumerate(pieces):
                         sock.deliver(piece, delay=0.01 * k)     # every piece is a separate recv
         net.listen('dev', 5000, Dev)
 
         def body():
-            node, io = make_node(kind)
+            node, io = make_node(kind, eol=eol if kind == 'string' and eol != '\n' else None)
             res['node'] = node
             io.read_is_connected()
             sched.begin()
-            r = do_op(io, kind, ['comm', cmd], sched)
+            r = do_op(io, kind, ['comm', cmd], sched, eol)
             res['r'] = r
         x = sched.run(body)
         part.evaluations += 1
@@ -415,7 +427,7 @@ def chunk_fn(shard):
         ok = r is not None and r[2] == 'ok' and r[3] == 'R:' + cmd
         part.outcomes['ok' if ok else 'bad'] += 1
         if not ok:
-            part.violation(f'C16:{kind}:reply-depends-on-chunking', {'chunk': [kind, cmd, mask, mask + 1]},
+            part.violation(f'C16:{kind}:reply-depends-on-chunking', {'chunk': [kind, cmd, mask, mask + 1, eol]},
                            f'{kind} communicate({cmd!r}) with the reply delivered as {pieces} gave {r}')
         if mask % 97 == 0:
             part.sample({'kind': kind, 'cmd': cmd, 'pieces': [p.decode() for p in pieces], 'result': str(r[3]) if r else None})
@@ -437,7 +449,12 @@ def run(ctx):
     cmd = 'ABCDE' if ctx.tier == 'quick' else 'ABCDEFGH'
     nmask = 1 << (len(cmd) + 2)
     step = max(nmask // 32, 1)
-    ctx.pmap(chunk_fn, [(k, cmd, lo, min(lo + step, nmask)) for k in ('string', 'bytes') for lo in range(0, nmask, step)], name='chunking')
+    shards = [(k, cmd, lo, min(lo + step, nmask), '\n') for k in ('string', 'bytes') for lo in range(0, nmask, step)]
+    for eol in ('\r\n', ';;;'):       # multi-byte end-of-line markers: a chunk boundary may fall inside the marker
+        nm = 1 << (len(cmd) + 1 + len(eol))
+        st = max(nm // 32, 1)
+        shards += [(k, cmd, lo, min(lo + st, nm), eol) for k in ('string', 'bytes') for lo in range(0, nm, st)]
+    ctx.pmap(chunk_fn, shards, name='chunking')
     ctx.rule = ('schedules: for every case (caller operations x communicator kind) all executions with <= bound preemptions and <= dev '
                 'environment deviations (device answers: now / late / late-split / garbage after / silent / close before / close after; '
                 'reconnect accept / refuse); chunking: all 2^(n-1) segmentations of the reply bytes; evaluations = complete executions '
